@@ -1,11 +1,12 @@
 """Contracts, registry, symbolic pre-state builder and the per-function verification driver."""
-import time, traceback
+import os, time, traceback
 import z3
 from .values import *
 from .engine import *
 from .engine import _Return, _PathStop, _Break, _Continue
 from .interp import Interp, Frame, StateView, ContractView, LocalsView
 from . import spec as S
+from .types import T
 
 
 from .cbase import *
@@ -150,6 +151,23 @@ class SymBuilder:
 
     def func(self, v):
         return v
+
+    def regex(self, name):
+        """a compiled regular expression of either string type with flags of its own"""
+        v = VAny(self.ctx._const(name, Val), notnone=True, kindtag='regex')
+        self.leaves[name] = ('any', v)
+        return v
+
+    def union(self, name, alts):
+        """one object of several possible kinds: alts = ((label, type), ...)"""
+        u = self.ctx.fresh(T('Union', tuple(alts)), name)
+        self.leaves[name + '.tag'] = ('int', VInt(u.tag))
+        for lab, x in u.alts:
+            if isinstance(x, VStr):
+                self.leaves['%s.%s' % (name, lab)] = ('str', x)
+            elif isinstance(x, VInt):
+                self.leaves['%s.%s' % (name, lab)] = ('int', x)
+        return u
 
     def dict(self, keys, vals):
         return self.ctx.alloc(HObj('dict', 'dict', {'keys': list(keys), 'vals': list(vals)}, closed=True))
@@ -311,6 +329,8 @@ def run_function_paths(prog, reg, con, case_assign, max_paths=400, quick_ms=300)
             import traceback
             tb = traceback.extract_tb(e.__traceback__)
             where = '%s:%d' % (tb[-1].filename.split('/')[-1], tb[-1].lineno) if tb else '?'
+            if os.environ.get('VERIF_TRACE'):
+                traceback.print_exc()
             pr.status = 'unsupported'
             pr.detail = 'not evaluable on this path (%s: %s at %s)' % (type(e).__name__, str(e)[:120], where)
             pr.obligations = ctx.obligations
